@@ -160,11 +160,10 @@ package packets
 // subOpts of the four options of that topic, for v3 the QoS.
 //@ func (*Subscribe).Pack mode bv
 //@ props C06
-//@ requires [C06] p != nil
+//@ requires [C06] p != nil && w != nil
 //@ loop 1 invariant bufOK(bufw)
 //@ loop 2 invariant bufOK(bufw)
-//@ modifies p.FixHeader, heap
-//@ abstract call FixHeader).Pack pure
+//@ modifies p.FixHeader, heap, ghost(w.$in)
 //@ abstract call Buffer).WriteTo pure
 //@ call writeUTF8String#1 assert [C06] string(s) == v.Name
 //@ call Buffer.WriteByte#1 assert [C06] c == subOpts(v.Qos, v.NoLocal, v.RetainAsPublished, v.RetainHandling) && bufw.$w == at(writeUTF8String#1, bufw.$w) + 2 + len(v.Name)
@@ -221,3 +220,102 @@ package packets
 //@ ensures [C06] result ==> (forall i int :: 0 <= i && i < len(p) ==> !(p[i] <= 31) && p[i] != 127)
 //@ loop 1 invariant ref(p) == ref(old(p)) && off(p) >= off(old(p)) && off(p) + len(p) == off(old(p)) + len(old(p))
 //@ loop 1 invariant forall i int :: 0 <= i && i < off(p) - off(old(p)) ==> !(old(p)[i] <= 31) && old(p)[i] != 127
+
+// The four acknowledgement packets share one shape: a packet identifier (two bytes, big endian) and, only if the
+// remaining length is more than two, a reason code and (v5) a property block. Decoding never reads past the
+// remaining length; an accepted packet has at least the identifier; without a reason code the code is Success.
+//@ func ValidateCode inline
+
+//@ func (*Puback).Unpack mode bv
+//@ props C06
+//@ requires [C06] p != nil && p.FixHeader != nil && p.FixHeader.RemainLength >= 0
+//@ modifies heap
+//@ preserves all(FixHeader.*), all(Puback.Version)
+//@ ensures [C06] result == nil ==> p.FixHeader.RemainLength >= 2 && p.PacketID == (uint16(bufr.$data[0]) << 8 | uint16(bufr.$data[1])) && bufr.$w == p.FixHeader.RemainLength && bufr.$r <= bufr.$w
+//@ ensures [C06] result == nil && p.FixHeader.RemainLength == 2 ==> p.Code == 0
+//@ ensures [C06] result == nil && p.FixHeader.RemainLength > 2 && p.Version == 5 ==> p.Code == bufr.$data[2] && p.Properties != nil
+
+//@ func (*Pubrec).Unpack mode bv
+//@ props C06
+//@ requires [C06] p != nil && p.FixHeader != nil && p.FixHeader.RemainLength >= 0
+//@ modifies heap
+//@ preserves all(FixHeader.*), all(Pubrec.Version)
+//@ ensures [C06] result == nil ==> p.FixHeader.RemainLength >= 2 && p.PacketID == (uint16(bufr.$data[0]) << 8 | uint16(bufr.$data[1])) && bufr.$w == p.FixHeader.RemainLength && bufr.$r <= bufr.$w
+//@ ensures [C06] result == nil && p.FixHeader.RemainLength == 2 ==> p.Code == 0
+//@ ensures [C06] result == nil && p.FixHeader.RemainLength > 2 && p.Version == 5 ==> p.Code == bufr.$data[2] && p.Properties != nil
+
+//@ func (*Pubcomp).Unpack mode bv
+//@ props C06
+//@ requires [C06] p != nil && p.FixHeader != nil && p.FixHeader.RemainLength >= 0
+//@ modifies heap
+//@ preserves all(FixHeader.*), all(Pubcomp.Version)
+//@ ensures [C06] result == nil ==> p.FixHeader.RemainLength >= 2 && p.PacketID == (uint16(bufr.$data[0]) << 8 | uint16(bufr.$data[1])) && bufr.$w == p.FixHeader.RemainLength && bufr.$r <= bufr.$w
+//@ ensures [C06] result == nil && p.FixHeader.RemainLength == 2 ==> p.Code == 0
+//@ ensures [C06] result == nil && p.FixHeader.RemainLength > 2 && p.Version == 5 ==> p.Code == bufr.$data[2] && p.Properties != nil
+
+//@ func (*Pubrel).Unpack mode bv
+//@ props C06
+//@ requires [C06] p != nil && p.FixHeader != nil && p.FixHeader.RemainLength >= 0
+//@ modifies heap
+//@ preserves all(FixHeader.*)
+//@ ensures [C06] result == nil ==> p.FixHeader.RemainLength >= 2 && p.PacketID == (uint16(bufr.$data[0]) << 8 | uint16(bufr.$data[1])) && bufr.$w == p.FixHeader.RemainLength && bufr.$r <= bufr.$w
+//@ ensures [C06] result == nil && p.FixHeader.RemainLength == 2 ==> p.Code == 0
+//@ ensures [C06] result == nil && p.FixHeader.RemainLength > 2 ==> p.Code == bufr.$data[2] && p.Properties != nil
+
+// Pack of an acknowledgement: the identifier first (big endian); a reason code and a property block only for v5 and
+// only if there is something to say; the fixed header announces exactly the bytes written. Decoding the two
+// identifier bytes gives the identifier back (lemma ackIdRoundTrip), so Unpack(Pack(p)).PacketID == p.PacketID.
+//@ lemma ackIdRoundTrip mode bv : [C06] forall i uint16 :: (uint16(byte(i >> 8)) << 8 | uint16(byte(i))) == i
+
+//@ func (*Puback).Pack mode bv
+//@ props C06
+//@ requires [C06] p != nil && w != nil
+//@ modifies p.FixHeader, heap, ghost(w.$in)
+//@ abstract call Buffer).WriteTo pure
+//@ abstract call Properties).Pack pure
+//@ call writeUint16#1 assert [C06] i == p.PacketID && $arg0.$w == 0
+//@ call Buffer.WriteByte#1 assert [C06] p.Version == 5 && (p.Code != 0 || p.Properties != nil) && c == p.Code && bufw.$w == 2
+//@ call FixHeader.Pack#1 assert [C06] p.FixHeader.PacketType == 4 && p.FixHeader.Flags == 0 && p.FixHeader.RemainLength == bufw.$w - bufw.$r && bufw.$r == 0 && bufw.$data[0] == byte(p.PacketID >> 8) && bufw.$data[1] == byte(p.PacketID)
+//@ call FixHeader.Pack#1 assert [C06] !(p.Version == 5 && (p.Code != 0 || p.Properties != nil)) ==> p.FixHeader.RemainLength == 2
+
+//@ func (*Pubrec).Pack mode bv
+//@ props C06
+//@ requires [C06] p != nil && w != nil
+//@ modifies p.FixHeader, heap, ghost(w.$in)
+//@ abstract call Buffer).WriteTo pure
+//@ abstract call Properties).Pack pure
+//@ call writeUint16#1 assert [C06] i == p.PacketID && $arg0.$w == 0
+//@ call Buffer.WriteByte#1 assert [C06] p.Version == 5 && (p.Code != 0 || p.Properties != nil) && c == p.Code && bufw.$w == 2
+//@ call FixHeader.Pack#1 assert [C06] p.FixHeader.PacketType == 5 && p.FixHeader.Flags == 0 && p.FixHeader.RemainLength == bufw.$w - bufw.$r && bufw.$r == 0 && bufw.$data[0] == byte(p.PacketID >> 8) && bufw.$data[1] == byte(p.PacketID)
+//@ call FixHeader.Pack#1 assert [C06] !(p.Version == 5 && (p.Code != 0 || p.Properties != nil)) ==> p.FixHeader.RemainLength == 2
+
+//@ func (*Pubrel).Pack mode bv
+//@ props C06
+//@ requires [C06] p != nil && w != nil
+//@ modifies p.FixHeader, heap, ghost(w.$in)
+//@ abstract call Buffer).WriteTo pure
+//@ abstract call Properties).Pack pure
+//@ call writeUint16#1 assert [C06] i == p.PacketID && $arg0.$w == 0
+//@ call Buffer.WriteByte#1 assert [C06] (p.Code != 0 || p.Properties != nil) && c == p.Code && bufw.$w == 2
+//@ call FixHeader.Pack#1 assert [C06] p.FixHeader.PacketType == 6 && p.FixHeader.Flags == 2 && p.FixHeader.RemainLength == bufw.$w - bufw.$r && bufw.$r == 0 && bufw.$data[0] == byte(p.PacketID >> 8) && bufw.$data[1] == byte(p.PacketID)
+//@ call FixHeader.Pack#1 assert [C06] !(p.Code != 0 || p.Properties != nil) ==> p.FixHeader.RemainLength == 2
+
+//@ func (*Pubcomp).Pack mode bv
+//@ props C06
+//@ requires [C06] p != nil && w != nil
+//@ modifies p.FixHeader, heap, ghost(w.$in)
+//@ abstract call Buffer).WriteTo pure
+//@ abstract call Properties).Pack pure
+//@ call writeUint16#1 assert [C06] i == p.PacketID && $arg0.$w == 0
+//@ call Buffer.WriteByte#1 assert [C06] p.Version == 5 && (p.Code != 0 || p.Properties != nil) && c == p.Code && bufw.$w == 2
+//@ call FixHeader.Pack#1 assert [C06] p.FixHeader.PacketType == 7 && p.FixHeader.Flags == 0 && p.FixHeader.RemainLength == bufw.$w - bufw.$r && bufw.$r == 0 && bufw.$data[0] == byte(p.PacketID >> 8) && bufw.$data[1] == byte(p.PacketID)
+//@ call FixHeader.Pack#1 assert [C06] !(p.Version == 5 && (p.Code != 0 || p.Properties != nil)) ==> p.FixHeader.RemainLength == 2
+
+// FixHeader.Pack: one byte with the packet type in the high and the flags in the low four bits, followed by the
+// variable byte integer of the remaining length (DecodeRemainLength); a remaining length that has no encoding is an error.
+//@ func (*FixHeader).Pack mode bv
+//@ props C06
+//@ requires [C06] fh != nil && w != nil && fh.RemainLength >= 0
+//@ modifies heap, ghost(w.$in)
+//@ ensures [C06] fh.RemainLength > 268435455 ==> result != nil && called(Writer.Write#1) == 0
+//@ call Writer.Write#1 assert [C06] len(p) == 1 + len(length) && p[0] == (fh.PacketType << 4 | fh.Flags) && (forall k int :: 0 <= k && k < len(length) ==> p[1 + k] == length[k]) && 0 <= fh.RemainLength && fh.RemainLength <= 268435455
